@@ -20,6 +20,7 @@ func checkC08(c *Ctx) Meta {
 	c.Rule("C08-FILTER", "the proof of the returned template is an element of getBindingProofs(getValidProofs(GetProofs(SFMining, template challenge))); the two filters keep only Error==nil / PassBinding", 3)
 	c.Rule("C08-TARGET", "a template is returned only on the true edge of bestQuality.Cmp(GetTarget(template timestamp)) > 0; qualities are VerifiedQuality of each proof with its own key hash, the template challenge and the work slot; best index and best quality move together", 4)
 	c.Rule("C08-SLOT", "slot counter and template timestamp advance together; each slot evaluation passes the quit test and the stale test; evaluation is bounded by now + allowAhead", 4)
+	checkV2EarliestSlot(c, "C08-SLOT")
 	c.Rule("C08-SIGN", "the PoC hash is computed after the header is final (only Signature is stored afterwards) and signed by the keeper with the winning space's id; header key, proof, timestamp, target and challenge come from the winning proof and the template", 7)
 	c.Rule("C08-SUBMIT", "ProcessBlock runs only after time.Now().After(header timestamp); a height is recorded as mined only after acceptance; a recorded height is never solved again; the mined-height map is touched only by the generator goroutine's functions", 4)
 
@@ -917,5 +918,64 @@ func checkLoopVarCapture(c *Ctx, rule string, pkgs []string) {
 	}
 	if n == 0 {
 		c.Bad(rule, "anchor:async-closures", "", "reason=anchor-missing: no asynchronous closure created in a loop was found in the packages examined")
+	}
+}
+
+// checkV2EarliestSlot: the cluster miner (engine v2) keeps, among the eligible qualities reported by its
+// collectors, the one of the earliest slot and, within a slot, the best quality: an eligible report of a
+// strictly earlier slot replaces the current best whatever its quality. Structurally: the true edge of
+// `report.Slot < bestSlot` reaches the update of the best (the store of the work slot) without passing a
+// quality comparison; and a same-slot report updates only behind `quality > best`.
+func checkV2EarliestSlot(c *Ctx, rule string) {
+	const pkgMinerV2 = repoMod + "/poc/engine.v2/pocminer/miner"
+	var f *ssa.Function
+	var upd *ssa.Call
+	for fn := range c.AllFuncs {
+		if pkgOf(fn) != pkgMinerV2 {
+			continue
+		}
+		for _, cl := range callsIn(fn, "sync/atomic.StoreUint64") {
+			if backSlice(cl.Call.Args[1]).hasFieldNamed("Slot") {
+				f, upd = fn, cl
+			}
+		}
+	}
+	key := "v2.getBestProof:earlier-slot-always-wins"
+	if f == nil {
+		c.Bad(rule, key, "", "reason=anchor-missing: the update of the best reported quality (store of the work slot) in the cluster miner")
+		return
+	}
+	isQualityCmp := func(in ssa.Instruction) bool {
+		cl, ok := in.(*ssa.Call)
+		return ok && isCall(cl, "(*math/big.Int).Cmp")
+	}
+	var lss []boolTest
+	allInstrs(f, func(in ssa.Instruction) {
+		bo, ok := in.(*ssa.BinOp)
+		if !ok || bo.Op != token.LSS {
+			return
+		}
+		if _, isK := bo.Y.(*ssa.Const); isK {
+			return
+		}
+		if backSlice(bo.X).hasFieldNamed("Slot") {
+			lss = append(lss, boolTestsOf(f, bo)...)
+		}
+	})
+	if len(lss) == 0 {
+		c.Bad(rule, key, c.Pos(upd.Pos()), "no test `reported slot < best slot` guards the update of the best quality: a report for an earlier slot with a numerically lower quality does not replace a later-slot best, so the miner does not settle on the earliest eligible slot")
+		return
+	}
+	ok := false
+	for _, t := range lss {
+		r := reach(f, t.If, func(from, to *ssa.BasicBlock) bool { return from == t.If.Block() && to != t.TrueSucc }, isQualityCmp)
+		if r(upd) {
+			ok = true
+		}
+	}
+	if ok {
+		c.OK(rule, key, c.Pos(upd.Pos()), "the true edge of `slot < bestSlot` reaches the update without a quality comparison")
+	} else {
+		c.Bad(rule, key, c.Pos(upd.Pos()), "an eligible report of a strictly earlier slot replaces the best only if its quality is also higher: the miner can settle on a later slot than the earliest eligible one")
 	}
 }
